@@ -166,6 +166,21 @@ def build(e: dict):
     raise ValueError(k)
 
 
+def expressible(e) -> bool:
+    """False for programs no user code can denote: a lazy operator whose LEFT operand is a container literal with
+    calls inside (Python would apply the operator to the container at once; the harness can only stand in for the
+    lazy operand with a ValueExpression, which does not evaluate what the container holds)."""
+    if isinstance(e, list):
+        return all(expressible(x) for x in e)
+    if not isinstance(e, dict):
+        return True
+    if e.get("k") == "op" and e["args"] and e["args"][0].get("k") in ("list", "tuple", "dict"):
+        if '"k": "call"' in json.dumps(e["args"][0]) or '"k": "op"' in json.dumps(e["args"][0]) \
+                or '"k": "map"' in json.dumps(e["args"][0]):
+            return False
+    return all(expressible(v) for v in e.values() if isinstance(v, (dict, list)))
+
+
 def from_value_expr(kk: dict):
     assert kk["k"] == "val"
     return from_value(kk["v"])
